@@ -41,13 +41,15 @@ import dawgie.context  # noqa: E402
 import dawgie.db  # noqa: E402
 import dawgie.db.basis as basis  # noqa: E402
 import dawgie.db.shelve  # noqa: E402
-import dawgie.db.shelve.search as shsearch  # noqa: E402
+import dawgie.db.shelve.search  # noqa: E402,F401
 import dawgie.db.shelve.util as util  # noqa: E402
 import dawgie.fe.api.database as fe_database  # noqa: E402
 import dawgie.fe.api.facet as fe_facet  # noqa: E402
 from dawgie.db.basis import Params, Range, SearchFacade  # noqa: E402
 from dawgie.db.shelve.state import DBI  # noqa: E402
 
+# (the package attribute dawgie.db.shelve.search is the function search(), not the module)
+shsearch = sys.modules['dawgie.db.shelve.search']
 OPEN = -1
 DIMS = ['tg', 'tk', 'al', 'sv']
 PARAM = {'tg': 'targets', 'tk': 'tasks', 'al': 'algs', 'sv': 'svs'}
